@@ -497,6 +497,20 @@ def run(project: Project, rep, tier: str):
                ("linear_ramp", "uniform", "scalar", True), ("persistence", "opaque", "scalar", False)]
     for w, k, sg, skew in configs:
         check_fold(project, rep, w, k, sg, skew)
+    # AD-MULT: coincident pairs that are pooled before rendering must pool their weights by accumulation (scatter_rule)
+    from .common import numerics_positive_examples
+    rep.extra["positive_examples"] = numerics_positive_examples()
+    from . import scatter_rule
+    hits, st_ = scatter_rule.analyse(project, "persim.images.")
+    for h in hits:
+        rep.refuted("AD-MULT", h["fi"], h["node"],
+                    h["why"] + ": a pair that occurs k times in a diagram is rendered with the weight of one, so the image of a "
+                               "union is not the sum of the images (img(A ∪ A) = img(A))",
+                    construct=f"{h['fi'].qualname}: {ast.unparse(h['node'])[:100]}")
+    if not hits:
+        rep.discharged("AD-MULT", None, None, f"{st_['functions']} function(s) of persim.images: no weight is added through a "
+                                              f"grouping index without accumulating ({st_['accumulating_sites']} accumulating "
+                                              f"site(s))", nontrivial=False)
     check_empty(project, rep)
     check_par_wrap(project, rep)
     check_skew_equivalence(project, rep)
